@@ -12,7 +12,7 @@ RUNNER = "C04.Corr.run"
 FINDING_CLASSES = {1: "C04-F1"}
 RULE = ("complete enumeration of audience structures up to 2 restrictions x 2 audiences over an 8-value alphabet "
         "(quick: all shapes with <=1 audience per restriction + seeded sample of the rest), complete product of "
-        "Destination(8) x Recipient(9) x conv_info(3) x binding(2) x endpoint configuration(3), plus random look-alike "
+        "Destination(8) x Recipient(9) x conv_info(3) x binding(2) x endpoint configuration(5, incl. SPs with no consumer endpoint for the binding used), plus random look-alike "
         "strings; every case is a Response signed by the IdP key and run through parse_authn_request_response. "
         "non-trivial = distinct (restriction shape class, dest class, recipient class, conv, binding, config) on which "
         "at least one addressing check is exercised with a non-default value")
@@ -28,6 +28,9 @@ CONFIGS = {
     "default": [(world.SP_ACS_POST, POST), (world.SP_ACS_REDIRECT, REDIRECT)],
     "bare": [world.SP_ACS_POST],
     "twopost": [(world.SP_ACS_POST, POST), ("https://sp.example.org/acs/post2", POST), (world.SP_ACS_REDIRECT, REDIRECT)],
+    # consumer endpoints for one binding only: on the other binding the SP has NO own endpoint (return_addrs = [])
+    "postonly": [(world.SP_ACS_POST, POST)],
+    "redironly": [(world.SP_ACS_REDIRECT, REDIRECT)],
 }
 
 
@@ -43,9 +46,11 @@ def own_for(cfg, binding):
 
 
 def addr_alphabet(cfg, binding, with_eid):
-    own = own_for(cfg, binding)[0]
     otherb = REDIRECT if binding == POST else POST
     oo = own_for(cfg, otherb)
+    owns = own_for(cfg, binding)
+    # no endpoint for this binding: the "own" slot holds a well-formed URL of the SP that is not registered for it
+    own = owns[0] if owns else "https://sp.example.org/acs/unregistered"
     other_binding = oo[0] if oo and oo[0] != own else "https://sp.example.org/acs/elsewhere"
     vals = [None, "", own, other_binding, "https://evil.example.com/acs", own[:-1], own + "/x", own.upper()]
     if with_eid:
@@ -94,14 +99,12 @@ def generate(ctx):
     convs = [None, {"entity_id": ME}, {"remote_addr": "0.0.0.0"}]
     for cfg in CONFIGS:
         for binding in (POST, REDIRECT):
-            if not own_for(cfg, binding):
-                continue
             dests = addr_alphabet(cfg, binding, False)
             recips = addr_alphabet(cfg, binding, True)
             for conv in convs:
                 for d in dests:
                     for r in recips:
-                        if cfg != "default" and not ctx.thorough and rng.random() > 0.25:
+                        if cfg != "default" and own_for(cfg, binding) and not ctx.thorough and rng.random() > 0.25:
                             continue
                         cases.append(mk_case([[ME]], d, r, conv, binding, cfg, "addr"))
     for _ in range(300 if ctx.thorough else 40):
